@@ -116,6 +116,8 @@ def run_case(case):
                     res['nontrivial'].append('%s|%s|%s|%s' % (case['name'], mode, 'grows' if grows else 'shrinks', ' '.join(flags)))
                     if grows:
                         res['counters']['passed_through_because_larger'] = res['counters'].get('passed_through_because_larger', 0) + 1
+                        if (len(api) - len(src)) * 100 < len(src):
+                            res['counters']['passed_through_growth_under_1_percent'] = res['counters'].get('passed_through_growth_under_1_percent', 0) + 1
                     else:
                         res['counters']['minified_written'] = res['counters'].get('minified_written', 0) + 1
             else:
@@ -132,9 +134,27 @@ def run_case(case):
     return res
 
 
+def margin_growers(tier):
+    """already-minified modules of 100 .. several thousand bytes plus a string of 1-3 raw tabs: the minified form is longer by a byte or two
+    (well under 1 %), so a size test that rounds, or compares something other than byte counts, lets it through"""
+    import python_minifier as pm
+    out = []
+    pool_ = [(t, s_) for t, s_ in seeds.all_seeds() if not t.startswith(('d8', 'd12', 'd7', 'd9', 'd16', 'd17', 'd6'))]
+    for tag, text in pool_[:: (4 if tier == 'quick' else 1)]:
+        try:
+            m = pm.minify(text)
+            if pm.minify(m) != m or len(m) < 60:
+                continue
+        except Exception:
+            continue
+        for k in (1, 2, 3):
+            out.append(('margin+%d:%s' % (k, tag), (m + '\nzq="' + '\t' * k + '"').encode('utf-8')))
+    return out
+
+
 def gen_cases(tier, seed):
     r = common.rng(seed, 'C14')
-    srcs = list(growers())
+    srcs = list(growers()) + margin_growers(tier)
     enc = encgen.cases(seed, 60 if tier == 'quick' else 600)
     for c in enc:
         srcs.append((c['shape'], c['data']))
@@ -172,7 +192,7 @@ def main(tier, seed):
              'modes, with PYMINIFY_FORCE_BEST_EFFORT absent (and decoy variables present); a second pass with the override; '
              'non-trivial/distinct = distinct (source, mode, grows/shrinks, flags) runs compared byte for byte',
         assumptions=['UTF-8 of minify(bytes, **documented kwargs) is "the minified form"'],
-        min_nontrivial=40, required_counters=['cli_runs', 'passed_through_because_larger', 'minified_written', 'override_runs'])
+        min_nontrivial=40, required_counters=['cli_runs', 'passed_through_because_larger', 'passed_through_growth_under_1_percent', 'minified_written', 'override_runs', 'stale_output_files'])
 
 
 def replay(path):
